@@ -175,6 +175,8 @@ class Gen:
 
     # ---- statements: return (python lines, coq stm) ----
     def assign(self, ind):
+        if self.mode == "conc":
+            return self.assign_conc(ind)
         r = self.rng.random()
         if r < 0.2:
             e = self.bit() if self.rng.random() < 0.7 else self.cond()
@@ -207,6 +209,34 @@ class Gen:
             return [ind + f"self.w0[{lo + 1}:{lo}] <<= {e[1]}"], f"(RAssign (TSigSlice 3 {lo}%N 2%N) {e[2]})"
         e = self.bv4()
         return [ind + f"self.w0 <<= {e[1]}"], f"(RAssign (TSig 3) {e[2]})"
+
+    def assign_conc(self, ind):
+        """a concurrent context drives each target (bit) from exactly one statement"""
+        free = [t for t in ("q0", "r0", "w0", "w0lo", "w0hi") if t not in self.assigned_vars]
+        if "w0" in self.assigned_vars:
+            free = [t for t in free if not t.startswith("w0")]
+        if "w0lo" in self.assigned_vars or "w0hi" in self.assigned_vars:
+            free = [t for t in free if t != "w0"]
+        if not free:
+            self.budget = 0
+            return [ind + "pass"], "RSkip"
+        t = self.rng.choice(free)
+        self.assigned_vars.add(t)
+        if t == "q0":
+            e = self.bit() if self.rng.random() < 0.7 else self.cond()
+            return [ind + f"self.q0 <<= {e[1]}"], f"(RAssign (TSig 0) {e[2]})"
+        if t == "q1":
+            e = self.bit()
+            return [ind + f"self.q1 <<= {e[1]}"], f"(RAssign (TSig 1) {e[2]})"
+        if t == "r0":
+            e = self.u2()
+            return [ind + f"self.r0 <<= {e[1]}"], f"(RAssign (TSig 2) {e[2]})"
+        if t == "w0":
+            e = self.bv4()
+            return [ind + f"self.w0 <<= {e[1]}"], f"(RAssign (TSig 3) {e[2]})"
+        lo = 0 if t == "w0lo" else 2
+        e = self.u2()
+        return [ind + f"self.w0[{lo + 1}:{lo}] <<= {e[1]}"], f"(RAssign (TSigSlice 3 {lo}%N 2%N) {e[2]})"
 
     def block(self, ind, depth):
         n = self.rng.randint(1, 3)
